@@ -45,12 +45,27 @@ def min_distortion(DX, DY):
     if key in _cache:
         return _cache[key]
     n, m = len(DX), len(DY)
-    maps = np.array(list(itertools.product(range(m), repeat=n)), dtype=np.int64)  # (m^n, n)
-    img = DY[maps[:, :, None], maps[:, None, :]]  # (K, n, n)
-    dis = np.abs(img - DX[None, :, :]).reshape(len(maps), -1).max(axis=1)
-    v = int(dis.min())
-    _cache[key] = v
-    return v
+    DXs = DX.astype(np.int16)
+    DYs = DY.astype(np.int16)
+    total = m ** n
+    best = None
+    chunk = 200000
+    # maps enumerated in mixed-radix order, in chunks (7^7 maps x 49 entries do not fit at once)
+    for start in range(0, total, chunk):
+        idx = np.arange(start, min(total, start + chunk), dtype=np.int64)
+        maps = np.empty((len(idx), n), dtype=np.int16)
+        rem = idx.copy()
+        for pos in range(n - 1, -1, -1):
+            maps[:, pos] = rem % m
+            rem //= m
+        img = DYs[maps[:, :, None], maps[:, None, :]]
+        dis = np.abs(img - DXs[None, :, :]).reshape(len(maps), -1).max(axis=1)
+        v = int(dis.min())
+        best = v if best is None else min(best, v)
+        if best == 0:
+            break
+    _cache[key] = best
+    return best
 
 
 def exact_double(DX, DY):
@@ -113,3 +128,22 @@ def isomorphic(A, B):
         if {(min(p[i], p[j]), max(p[i], p[j])) for i, j in ea} == eb:
             return True
     return False
+
+
+def atlas(n=None, max_edges_over_tree=None):
+    """Unlabelled connected graphs from data/atlas_connected.json as upper-triangular adjacency lists."""
+    import json
+    import os
+
+    path = os.path.join(os.path.dirname(os.path.dirname(os.path.abspath(__file__))), "data", "atlas_connected.json")
+    out = []
+    for k, edges in json.load(open(path)):
+        if n is not None and k != n:
+            continue
+        if max_edges_over_tree is not None and len(edges) > k - 1 + max_edges_over_tree:
+            continue
+        A = [[0] * k for _ in range(k)]
+        for u, v in edges:
+            A[u][v] = 1
+        out.append(A)
+    return out
